@@ -495,4 +495,9 @@ def r2_13(ctx):
     ctx.rules_applied["R2.13"] += " [wrapping is a function of (text, width, fold, justify, overflow): a cache of break offsets or of justified lines whose key leaves one of them out replays the breaks of another mode - a long word folded or not depending on what was wrapped before]"
 
 
-RULES = [r2_1, r2_2, r2_3, r2_4, r2_5, r2_6, r2_7, r2_8, r2_10, r2_9, r2_11, r2_12, r2_13]
+def r2_14(ctx):
+    from .c05 import r5_8
+    borrow(ctx, r5_8, "R5.8", "R2.14", " [a line is divided exactly when it does not fit: Text.wrap may skip divide_line only on a test in cells, and the widths it hands to truncate / rstrip_end / justify are the cell width it was given]")
+
+
+RULES = [r2_1, r2_2, r2_3, r2_4, r2_5, r2_6, r2_7, r2_8, r2_10, r2_9, r2_11, r2_12, r2_13, r2_14]
